@@ -161,6 +161,7 @@ func pipeRunCompare(prop string, f *Fixture, cfg *sut.Config, spec *PipeSpec, qu
 		want[i] = len(exps[i])
 	}
 	res := runPipesQuiet(f, spec, want, 8*time.Second, quiet, exps)
+	f.LastLog = res.Log
 	var ds []Discrepancy
 	ds = f.checkAlive(prop, ds)
 	if len(ds) > 0 {
